@@ -94,6 +94,19 @@ def chk_gctm(inp):
         m1 = numpy.array([(cL / 100e-15 * (hL / 1e4) ** k).sum() for k in range(2 * L - 1)])
         if numpy.max(abs(m1 - m0) / abs(m0)) > 2e-2:
             return bad("GCTM(L=%d) does not reproduce the first 2L-1 moments to optimiser accuracy" % L, m1.tolist(), m0.tolist())
+    # a ground layer at h = 0 alone in the lowest slab (heights on the optimiser's bound), irregular spacing
+    profs = [(numpy.array([0., 5000., 6500., 8000., 9500.]), numpy.array([4., 1., 2., 1.5, .5]) * 1e-13),
+             (numpy.r_[0., numpy.linspace(8000., 15000., 12)], numpy.r_[5., 0.5 + 0.2 * numpy.sin(numpy.arange(12)) ** 2] * 1e-13),
+             (numpy.array([0., 200., 7000., 9000., 12000.]), numpy.array([3., 2., 1., 1., .4]) * 1e-13)]
+    for h, p in profs:
+        for L in (2, 3):
+            hL, cL = PC.GCTM(h, p, L)
+            if len(hL) != L or len(cL) != L or not numpy.all(numpy.isfinite(hL)) or not numpy.all(numpy.isfinite(cL)) or numpy.any(cL < 0) or numpy.any(hL < 0):
+                return bad("GCTM: not L finite non-negative layers (ground-layer profile)", [numpy.asarray(hL).tolist(), numpy.asarray(cL).tolist()], L)
+            m0 = numpy.array([(p / 1e-13 * (h / 1e4) ** k).sum() for k in range(2 * L - 1)])
+            m1 = numpy.array([(cL / 1e-13 * (hL / 1e4) ** k).sum() for k in range(2 * L - 1)])
+            if numpy.max(abs(m1 - m0) / abs(m0)) > 1e-2:
+                return bad("GCTM(L=%d) does not reproduce the first 2L-1 moments of a profile with a ground layer at h=0 to optimiser accuracy (1e-2)" % L, m1.tolist(), m0.tolist())
 
 
 one = lambda t, s: [{}]
